@@ -361,6 +361,9 @@ use x25519_dalek::PublicKey;
 
 pub mod helpers;
 
+#[cfg(mla_verif)]
+pub mod verif;
+
 // -------- Constants --------
 
 const MLA_MAGIC: &[u8; 3] = b"MLA";
@@ -1310,7 +1313,12 @@ pub struct ArchiveFailSafeReader<'a, R: 'a + Read> {
 }
 
 // Size of the repaired file blocks
+#[cfg(not(mla_verif))]
 const CACHE_SIZE: usize = 8 * 1024 * 1024; // 8MB
+#[cfg(mla_verif)]
+#[allow(clippy::cast_possible_truncation)]
+const CACHE_SIZE: usize =
+    crate::verif::env_u64(option_env!("MLA_VERIF_REPAIR_CACHE"), 8 * 1024 * 1024) as usize;
 
 /// Used to update the error state only if it was `NoError`
 /// ```text
@@ -1569,6 +1577,110 @@ impl<'b, R: 'b + Read> ArchiveFailSafeReader<'b, R> {
 
         output.finalize()?;
         Ok(error)
+    }
+}
+
+// -------- Verification hooks --------
+
+/// Projection of the writer's internal state
+#[cfg(mla_verif)]
+#[derive(Debug, Clone, Default)]
+pub struct VerifWriterState {
+    pub finalized: bool,
+    pub opened_ids: Vec<ArchiveFileID>,
+    pub next_id: ArchiveFileID,
+    pub current_id: ArchiveFileID,
+    pub position: u64,
+    /// (name, id)
+    pub names: Vec<(String, ArchiveFileID)>,
+    /// (id, offsets, size, eof_offset)
+    pub infos: Vec<(ArchiveFileID, Vec<u64>, u64, u64)>,
+    pub layers: Vec<(&'static str, i64)>,
+}
+
+#[cfg(mla_verif)]
+impl<W: InnerWriterTrait> ArchiveWriter<'_, W> {
+    pub fn verif_state(&self) -> VerifWriterState {
+        let mut st = VerifWriterState {
+            next_id: self.next_id,
+            current_id: self.current_id,
+            position: self.dest.position(),
+            ..VerifWriterState::default()
+        };
+        match &self.state {
+            ArchiveWriterState::OpenedFiles { ids, .. } => st.opened_ids.clone_from(ids),
+            ArchiveWriterState::Finalized => st.finalized = true,
+        }
+        st.names = self
+            .files_info
+            .iter()
+            .map(|(k, v)| (k.clone(), *v))
+            .collect();
+        st.names.sort();
+        st.infos = self
+            .ids_info
+            .iter()
+            .map(|(k, v)| (*k, v.offsets.clone(), v.size, v.eof_offset))
+            .collect();
+        st.infos.sort();
+        self.dest.verif_state(&mut st.layers);
+        st
+    }
+}
+
+#[cfg(mla_verif)]
+impl<'b, R: 'b + InnerReaderTrait> ArchiveReader<'b, R> {
+    /// Hidden state of the layer stack, top layer first
+    pub fn verif_state(&self) -> Vec<(&'static str, i64)> {
+        let mut out = Vec::new();
+        self.src.verif_state(&mut out);
+        out
+    }
+
+    /// Direct access to the top layer (seekable plaintext stream of blocks)
+    pub fn verif_src(&mut self) -> &mut Box<dyn 'b + LayerReader<'b, R>> {
+        &mut self.src
+    }
+
+    /// Index as read from the footer: (name, offsets, size, eof_offset)
+    pub fn verif_index(&self) -> Vec<(String, Vec<u64>, u64, u64)> {
+        let mut out: Vec<_> = self.metadata.as_ref().map_or_else(Vec::new, |m| {
+            m.files_info
+                .iter()
+                .map(|(k, v)| (k.clone(), v.offsets.clone(), v.size, v.eof_offset))
+                .collect()
+        });
+        out.sort();
+        out
+    }
+}
+
+#[cfg(mla_verif)]
+impl<'b, R: 'b + Read> ArchiveFailSafeReader<'b, R> {
+    /// Hidden state of the layer stack, top layer first
+    pub fn verif_state(&self) -> Vec<(&'static str, i64)> {
+        let mut out = Vec::new();
+        self.src.verif_state(&mut out);
+        out
+    }
+
+    /// Direct access to the top fail-safe layer
+    pub fn verif_src(&mut self) -> &mut Box<dyn 'b + LayerFailSafeReader<'b, R>> {
+        &mut self.src
+    }
+}
+
+#[cfg(mla_verif)]
+impl<R: Read + Seek> BlocksToFileReader<'_, R> {
+    /// (state: 0 Ready / 1 InFile / 2 Finish, remaining, id, current_offset)
+    #[allow(clippy::cast_possible_wrap)]
+    pub fn verif_state(&self) -> (u8, i64, ArchiveFileID, usize) {
+        let (s, rem) = match self.state {
+            BlocksToFileReaderState::Ready => (0, 0),
+            BlocksToFileReaderState::InFile(n) => (1, n as i64),
+            BlocksToFileReaderState::Finish => (2, 0),
+        };
+        (s, rem, self.id, self.current_offset)
     }
 }
 
